@@ -800,6 +800,12 @@ def run(chk):
     common.results_inspected_rule(
         chk, P, "C02.R1:views-propagate", "no step of a map view of a property collection (AsMap's sval / serde / fmt impls) has its Result discarded",
         lambda b: b.crate == "emit_core" and "AsMap<" in b.key and "::tests::" not in b.key, {}, 6)
+    # the claim `is_unique() == true` of macro-built collections rests on the macros *rejecting* duplicate keys and malformed attributes: every
+    # fallible step of the proc-macro crate hands its error on (a dropped `Err` from Props::push is a duplicate key accepted silently)
+    if not getattr(chk, "_overlay", None):
+        common.results_inspected_rule(
+            chk, P, "C02.R4:macro-errors-propagate", "no fallible step of the proc-macro crate (duplicate-key check, attribute validation, argument parsing) has its Result discarded",
+            lambda b: b.crate == "emit_macros" and "::tests::" not in b.key, {}, 100)
     break_only_from_visitor_rule(chk, P, "C02.R1:break-only-from-visitor")
     common.wrapper_family_rule(chk, P, "C02", "emit_core::props::Props", 2, forward=False, allow={
         ("alloc::boxed::Box<", "get"): "the default get enumerates the boxed collection's own for_each (coherent by construction)",
